@@ -620,6 +620,7 @@ fn check_cmd(args: &[String]) -> i32 {
   if let Some(b) = arg(args, "--budget-s").and_then(|s| s.parse::<u64>().ok()) { spec.budget = Duration::from_secs(b); }
   if let Some(b) = std::env::var("VERIF_BUDGET_S").ok().and_then(|s| s.parse::<u64>().ok()) { spec.budget = Duration::from_secs(b); }
   if let Some(e) = arg(args, "--evidence") { spec.evidence = PathBuf::from(e); }
+  supervisor::set_watchdog(20); // a load takes well under a millisecond; C20 includes termination
   let code = drive(spec);
   std::fs::remove_dir_all(format!("/dev/shm/mechsim-fs-{}", std::process::id())).ok();
   code
@@ -634,8 +635,13 @@ fn replay_cmd(args: &[String]) -> i32 {
   if !flag(args, "--in-process") {
     // a broken cycle check overflows the stack: observe that from outside
     let exe = std::env::current_exe().unwrap();
-    return match std::process::Command::new(exe).arg("replay").arg(path).arg("--in-process").output() {
-      Ok(o) => { print!("{}", String::from_utf8_lossy(&o.stdout)); match o.status.code() { Some(c @ (0 | 1)) => c, _ => { println!("REPRODUCED host-aborted|process|died ({})", o.status); 1 } } }
+    let _ = exe;
+    return match supervisor::child_with_timeout(&["replay".to_string(), path.to_string(), "--in-process".to_string()], 60) {
+      Ok((code, out, err, timed_out)) => {
+        print!("{}", out);
+        if timed_out { println!("REPRODUCED host-aborted|process|watchdog (loading did not return within 60 s)"); return 1; }
+        match code { Some(c @ (0 | 1)) => c, _ => { println!("REPRODUCED host-aborted|process|died ({})", mechsim::node::trunc(err.trim(), 200)); 1 } }
+      }
       Err(e) => { eprintln!("cannot spawn: {}", e); 2 }
     };
   }
